@@ -506,3 +506,311 @@ Proof.
   rewrite callf_S. cbn [nth_error cprog F_ex_lineno]. change (fn_nparams cf_ex_lineno) with 1%nat. change (fn_nlocals cf_ex_lineno) with 2%nat.
   cbn [length Nat.eqb Nat.sub repeat app]. rewrite Ex. reflexivity.
 Qed.
+
+(* ================================================================== ex_region *)
+(* the position-based model of CapDefs.ex_region with everything the C function leaves behind: the value returned
+   (true = 1), *beg, *end (also when the address is rejected: the callers a/i/r/pu look at them) and xrow *)
+Definition sep_pre (c : N) : bool := (negb (c =? 0) && negb (c =? 59) && negb (c =? 44))%N.
+Fixpoint rloop (lineno : Z -> bytes -> nat -> CapDefs.res (Z * nat)) (fuel : nat) (s : bytes) (i : nat) (xrow : Z)
+    (naddr : nat) (b e : Z) : CapDefs.res (bool * Z * Z * Z) :=
+  match fuel with
+  | O => CapDefs.NoFuel
+  | S f =>
+      CapDefs.bind (CapDefs.rd s i) (fun c =>
+      if (c =? 0)%N then CapDefs.Ok (false, b, e, xrow) else
+      CapDefs.bind (lineno xrow s i) (fun r =>
+      let e1 := fst r + 1 in
+      let b1 := match naddr with O => e1 - 1 | _ => e - 1 end in
+      if e1 <? 0 then CapDefs.Ok (true, b1, e1, xrow) else
+      CapDefs.bind (CapDefs.skip_while (S (length s)) sep_pre s (snd r)) (fun j =>
+      CapDefs.bind (CapDefs.rd s j) (fun c2 =>
+      if (c2 =? 0)%N then CapDefs.Ok (false, b1, e1, xrow) else
+      rloop lineno f s (S j) (if (c2 =? 59)%N then e1 - 1 else xrow) (S naddr) b1 e1))))
+  end.
+Definition region_full (len : Z) (lineno : Z -> bytes -> nat -> CapDefs.res (Z * nat)) (loc : bytes) (xrow : Z)
+    : CapDefs.res (bool * Z * Z * Z) :=
+  if CapDefs.bytes_eqb loc [37%N] then CapDefs.Ok (false, 0, Z.max 0 len, xrow) else
+  CapDefs.bind (CapDefs.rd loc 0) (fun c =>
+  if (c =? 0)%N then CapDefs.Ok ((xrow <? 0) || (len <? xrow), xrow, (if xrow =? len then xrow else xrow + 1), xrow) else
+  CapDefs.bind (rloop lineno (S (length loc)) loc 0 xrow 0 0 0) (fun r =>
+  let '(bad, b, e, xr) := r in
+  if bad then CapDefs.Ok (true, b, e, xr) else
+  let b := if (b <? 0) && (e =? 0) then 0 else b in
+  if (b <? 0) || (len <=? b) then CapDefs.Ok (true, b, e, xr) else
+  if (e <? b) || (len <? e) then CapDefs.Ok (true, b, e, xr) else CapDefs.Ok (false, b, e, xr))).
+
+(* the values ex_region computes in int on top of those of ex_lineno: ex_lineno(..) + 1, and xrow + 1 for the empty address *)
+Fixpoint rloop_fit (len : Z) (mark : N -> option Z) (search : Z -> bytes -> nat -> option Z * nat)
+    (fuel : nat) (s : bytes) (i : nat) (xrow : Z) : Prop :=
+  match fuel with
+  | O => True
+  | S f =>
+      if (nthb s i =? 0)%N then True else
+      lineno_fit len mark search xrow s i /\
+      match CapDefs.ex_lineno len mark search xrow s i with
+      | CapDefs.Ok r =>
+          let e1 := fst r + 1 in
+          int_ok e1 /\
+          (if e1 <? 0 then True else
+           match CapDefs.skip_while (S (length s)) sep_pre s (snd r) with
+           | CapDefs.Ok j => if (nthb s j =? 0)%N then True
+                             else rloop_fit len mark search f s (S j) (if (nthb s j =? 59)%N then e1 - 1 else xrow)
+           | _ => True
+           end)
+      | _ => True
+      end
+  end.
+Definition region_fit (len : Z) (mark : N -> option Z) (search : Z -> bytes -> nat -> option Z * nat) (s : bytes) (xrow : Z) : Prop :=
+  if CapDefs.bytes_eqb s [37%N] then True
+  else if (nthb s 0 =? 0)%N then xrow <> len -> int_ok (xrow + 1)
+  else rloop_fit len mark search (S (length s)) s 0 xrow.
+
+(* strcmp("%", loc) == 0 exactly when loc is "%" *)
+Lemma strcmp_pct mm g bs s : nth_error mm g = Some (cstr_block [37]) -> str_at mm bs s -> nonul s ->
+  exists r, do_builtin_m BStrcmp [VPtr g 0; VPtr bs 0] mm = Ok (VInt r, mm) /\ (r =? 0) = CapDefs.bytes_eqb s [37%N].
+Proof.
+  intros Hg Hs Hn. cbn [do_builtin_m do_builtin]. unfold blk_from. rewrite Hg, Hs. cbn [Z.ltb Z.compare orb].
+  change (Z.of_nat (length (cstr_block [37])) <? 0) with false.
+  destruct (Z.ltb_spec (Z.of_nat (length (cstr_block (zb s)))) 0); [lia|]. cbn [bind skipn Z.to_nat].
+  destruct s as [|c t].
+  - eexists. split; [reflexivity|reflexivity].
+  - inversion Hn as [|? ? [Hc0 Hc] Ht]; subst. rewrite cstr_block_cons.
+    change (cstr_block [37]) with [VInt 37; VInt 0]. cbn [length cmp_cells Nat.max]. change (wrap U8 37) with 37. rewrite (u8_byte c Hc).
+    destruct (Z.ltb_spec 37 (Z.of_N c)).
+    { eexists. split; [reflexivity|]. cbn [CapDefs.bytes_eqb]. destruct (N.eqb_spec c 37); [lia|reflexivity]. }
+    destruct (Z.ltb_spec (Z.of_N c) 37).
+    { eexists. split; [reflexivity|]. cbn [CapDefs.bytes_eqb]. destruct (N.eqb_spec c 37); [lia|reflexivity]. }
+    assert (c = 37%N) by lia. subst c. change (37 =? 0) with false. cbv iota.
+    destruct t as [|c2 t2].
+    + unfold cstr_block, zb. cbn [map app length Nat.max cmp_cells]. eexists. split; [reflexivity|reflexivity].
+    + inversion Ht as [|? ? [Hd0 Hd] Ht2]; subst. rewrite cstr_block_cons. cbn [length Nat.max cmp_cells].
+      change (wrap U8 0) with 0. rewrite (u8_byte c2 Hd). destruct (Z.ltb_spec 0 (Z.of_N c2)); [|lia].
+      eexists. split; [reflexivity|]. cbn [CapDefs.bytes_eqb N.eqb Pos.eqb andb]. reflexivity.
+Qed.
+
+Lemma load1 (mm : mem) b v : nth_error mm b = Some ([v] : block) -> load mm b 0 = Ok v.
+Proof. intro H. unfold load. rewrite H. reflexivity. Qed.
+Lemma store1 (mm : mem) b v w : nth_error mm b = Some ([v] : block) -> store mm b 0 w = Ok (upd mm b ([w] : block)).
+Proof. intro H. rewrite (store_ok mm b ([v] : block) 0 w H) by (cbn; lia). reflexivity. Qed.
+
+Definition rbyte : expr := ELoad (Some I8) (ELoad None (ELocal 3)).
+Definition sep_cond : expr :=
+  EAndAlso (EAndAlso (ECast I32 rbyte) (EBin ONe I32 (ECast I32 rbyte) (EConst 59))) (EBin ONe I32 (ECast I32 rbyte) (EConst 44)).
+Definition inc_loc : expr := EIncMem true None 1 (ELocal 3).
+Definition sep_loop : stmt := SWhile sep_cond (SExpr inc_loc).
+Definition lbuf_len_call : expr := ECall F_lbuf_len [ECall F_ex_lbuf []].
+Definition rbody : stmt :=
+  SSeq (SExpr (ESetLocal 5 (ELoad (Some I32) (ELocal 2))))
+ (SSeq (SExpr (EStore (Some I32) (ELocal 2) (EBin OAdd I32 (ECall F_ex_lineno [ELocal 3]) (EConst 1))))
+ (SSeq (SExpr (EStore (Some I32) (ELocal 1) (ECond (EIncLocal true 4 (Some I32) 1) (EBin OSub I32 (ELocal 5) (EConst 1)) (EBin OSub I32 (ELoad (Some I32) (ELocal 2)) (EConst 1)))))
+ (SSeq (SIf (ELNot (EIncLocal true 4 (Some I32) 1)) (SExpr (EStore (Some I32) (ELocal 1) (EBin OSub I32 (ELoad (Some I32) (ELocal 2)) (EConst 1)))) SSkip)
+ (SSeq (SIf (EBin OLt I32 (ELoad (Some I32) (ELocal 2)) (EConst 0)) (SReturn (Some (EConst 1))) SSkip)
+ (SSeq sep_loop
+ (SSeq (SIf (ELNot rbyte) SBreak SSkip)
+ (SSeq (SIf (EBin OEq I32 (ECast I32 rbyte) (EConst 59)) (SExpr (EStore (Some I32) (EGlob G_xrow) (EBin OSub I32 (ELoad (Some I32) (ELocal 2)) (EConst 1)))) SSkip)
+       (SExpr inc_loc)))))))).
+Definition rtail : stmt :=
+  SSeq (SIf (EAndAlso (EBin OLt I32 (ELoad (Some I32) (ELocal 1)) (EConst 0)) (EBin OEq I32 (ELoad (Some I32) (ELocal 2)) (EConst 0))) (SExpr (EStore (Some I32) (ELocal 1) (EConst 0))) SSkip)
+ (SSeq (SIf (EOrElse (EBin OLt I32 (ELoad (Some I32) (ELocal 1)) (EConst 0)) (EBin OGe I32 (ELoad (Some I32) (ELocal 1)) lbuf_len_call)) (SReturn (Some (EConst 1))) SSkip)
+ (SSeq (SIf (EOrElse (EBin OLt I32 (ELoad (Some I32) (ELocal 2)) (ELoad (Some I32) (ELocal 1))) (EBin OGt I32 (ELoad (Some I32) (ELocal 2)) lbuf_len_call)) (SReturn (Some (EConst 1))) SSkip)
+       (SReturn (Some (EConst 0))))).
+Definition rpct : stmt :=
+  SIf (ELNot (EBuiltin BStrcmp [EGlob G_lit_25_1; ELoad None (ELocal 3)]))
+    (SSeq (SExpr (EStore (Some I32) (ELocal 1) (EConst 0)))
+    (SSeq (SExpr (EStore (Some I32) (ELocal 2) (ECond (EBin OLt I32 (EConst 0) lbuf_len_call) lbuf_len_call (EConst 0)))) (SReturn (Some (EConst 0))))) SSkip.
+Definition xrow_ld : expr := ELoad (Some I32) (EGlob G_xrow).
+Definition rempty : stmt :=
+  SIf (ELNot rbyte)
+    (SSeq (SExpr (EStore (Some I32) (ELocal 1) xrow_ld))
+    (SSeq (SExpr (EStore (Some I32) (ELocal 2) (ECond (EBin OEq I32 xrow_ld lbuf_len_call) xrow_ld (EBin OAdd I32 xrow_ld (EConst 1)))))
+          (SReturn (Some (EOrElse (EBin OLt I32 xrow_ld (EConst 0)) (EBin OGt I32 xrow_ld lbuf_len_call)))))) SSkip.
+Lemma ex_region_shape : fn_body cf_ex_region =
+  SSeq (SExpr (ESetLocal 3 (EBuiltin BMalloc [EConst 1]))) (SSeq (SExpr (EStore None (ELocal 3) (ELocal 0))) (SSeq (SExpr (ESetLocal 4 (EConst 0)))
+  (SSeq rpct (SSeq rempty (SSeq (SWhile rbyte rbody) rtail))))).
+Proof. reflexivity. Qed.
+
+Lemma lt_ne a b : (a < b)%nat -> a <> b.
+Proof. lia. Qed.
+(* the blocks ex_region stores into (beg, end, xrow) are different from each other and from the blocks it only reads
+   (a definition, so that lia does not look inside) *)
+Definition rdist (bs bb be bl : nat) : Prop :=
+  bb <> be /\ bb <> bs /\ bb <> bl /\ bb <> G_xrow /\ bb <> G_bufs /\
+  be <> bs /\ be <> bl /\ be <> G_xrow /\ be <> G_bufs /\ G_xrow <> bs /\ G_xrow <> bl.
+
+Section Region.
+  (* the memory at the call of ex_region(loc, &beg, &end): loc = the start of s in block bs, beg and end in blocks of their own *)
+  Variables (m : mem) (bs bb be bl : nat) (s : bytes) (gbufs lblk : block) (len : Z).
+  Hypothesis Hnn : nonul s.
+  Hypothesis Hlt : (bs < length m)%nat /\ (bb < length m)%nat /\ (be < length m)%nat /\ (bl < length m)%nat /\
+                   (G_xrow < length m)%nat /\ (G_bufs < length m)%nat.
+  Hypothesis Hdist : rdist bs bb be bl.
+  Hypothesis Hints : marks_ints lblk.
+  Hypothesis Hlen : int_ok len.
+  Let H256 : bytes_lt256 s := nonul_lt256 s Hnn.
+  Local Notation bn := (length m).
+
+  (* what stays true of the memory while ex_region runs: loc (in the fresh block bn) at position i, xrow, *beg, *end, and the
+     blocks of m that ex_region never stores into *)
+  Record RInv (mm : mem) (i : nat) (xr : Z) (vb : val) (e : Z) : Prop := mkRInv {
+    ri_loc : nth_error mm bn = Some ([VPtr bs (Z.of_nat i)] : block);
+    ri_str : str_at mm bs s;
+    ri_xrow : cell_at mm G_xrow xr;
+    ri_beg : nth_error mm bb = Some ([vb] : block);
+    ri_end : nth_error mm be = Some ([VInt e] : block);
+    ri_bufs : nth_error mm G_bufs = Some gbufs;
+    ri_lbuf : nth_error mm bl = Some lblk;
+    ri_frame : forall b', (b' < length m)%nat -> b' <> bb -> b' <> be -> b' <> G_xrow -> nth_error mm b' = nth_error m b' }.
+
+  Lemma lt_of (mm : mem) b (x : block) : nth_error mm b = Some x -> (b < length mm)%nat.
+  Proof. intro H. apply nth_error_Some. congruence. Qed.
+
+  Ltac dist := destruct Hlt as (L1 & L2 & L3 & L4 & L5 & L6); destruct Hdist as (D1 & D2 & D3 & D4 & D5 & D6 & D7 & D8 & D9 & D10 & D11).
+  Ltac ne := first [assumption | apply not_eq_sym; assumption | apply lt_ne; assumption | apply not_eq_sym, lt_ne; assumption
+                    | (unfold G_bufs, G_xrow; congruence)].
+
+  Lemma RInv_loc mm i xr vb e i' : RInv mm i xr vb e -> RInv (upd mm bn ([VPtr bs (Z.of_nat i')] : block)) i' xr vb e.
+  Proof.
+    intros [A B C D E F G H]. dist. pose proof (lt_of _ _ _ A) as LA.
+    constructor; unfold str_at, cell_at in *.
+    - apply mem_upd_same. exact LA.
+    - rewrite mem_upd_other by (try exact LA; ne). exact B.
+    - rewrite mem_upd_other by (try exact LA; ne). exact C.
+    - rewrite mem_upd_other by (try exact LA; ne). exact D.
+    - rewrite mem_upd_other by (try exact LA; ne). exact E.
+    - rewrite mem_upd_other by (try exact LA; ne). exact F.
+    - rewrite mem_upd_other by (try exact LA; ne). exact G.
+    - intros b' Hb' N1 N2 N3. rewrite mem_upd_other by (try exact LA; ne). apply H; assumption.
+  Qed.
+  Lemma RInv_beg mm i xr vb e v : RInv mm i xr vb e -> RInv (upd mm bb ([v] : block)) i xr v e.
+  Proof.
+    intros [A B C D E F G H]. dist. pose proof (lt_of _ _ _ D) as LA.
+    constructor; unfold str_at, cell_at in *.
+    - rewrite mem_upd_other by (try exact LA; ne). exact A.
+    - rewrite mem_upd_other by (try exact LA; ne). exact B.
+    - rewrite mem_upd_other by (try exact LA; ne). exact C.
+    - apply mem_upd_same. exact LA.
+    - rewrite mem_upd_other by (try exact LA; ne). exact E.
+    - rewrite mem_upd_other by (try exact LA; ne). exact F.
+    - rewrite mem_upd_other by (try exact LA; ne). exact G.
+    - intros b' Hb' N1 N2 N3. rewrite mem_upd_other by (try exact LA; ne). apply H; assumption.
+  Qed.
+  Lemma RInv_end mm i xr vb e e' : RInv mm i xr vb e -> RInv (upd mm be ([VInt e'] : block)) i xr vb e'.
+  Proof.
+    intros [A B C D E F G H]. dist. pose proof (lt_of _ _ _ E) as LA.
+    constructor; unfold str_at, cell_at in *.
+    - rewrite mem_upd_other by (try exact LA; ne). exact A.
+    - rewrite mem_upd_other by (try exact LA; ne). exact B.
+    - rewrite mem_upd_other by (try exact LA; ne). exact C.
+    - rewrite mem_upd_other by (try exact LA; ne). exact D.
+    - apply mem_upd_same. exact LA.
+    - rewrite mem_upd_other by (try exact LA; ne). exact F.
+    - rewrite mem_upd_other by (try exact LA; ne). exact G.
+    - intros b' Hb' N1 N2 N3. rewrite mem_upd_other by (try exact LA; ne). apply H; assumption.
+  Qed.
+  Lemma RInv_xrow mm i xr vb e xr' : RInv mm i xr vb e -> RInv (upd mm G_xrow ([VInt xr'] : block)) i xr' vb e.
+  Proof.
+    intros [A B C D E F G H]. dist. pose proof (lt_of _ _ _ C) as LA.
+    constructor; unfold str_at, cell_at in *.
+    - rewrite mem_upd_other by (try exact LA; ne). exact A.
+    - rewrite mem_upd_other by (try exact LA; ne). exact B.
+    - apply mem_upd_same. exact LA.
+    - rewrite mem_upd_other by (try exact LA; ne). exact D.
+    - rewrite mem_upd_other by (try exact LA; ne). exact E.
+    - rewrite mem_upd_other by (try exact LA; ne). exact F.
+    - rewrite mem_upd_other by (try exact LA; ne). exact G.
+    - intros b' Hb' N1 N2 N3. rewrite mem_upd_other by (try exact LA; ne). apply H; assumption.
+  Qed.
+  Lemma RInv_app mm i xr vb e (x : block) : RInv mm i xr vb e -> RInv (mm ++ [x]) i xr vb e.
+  Proof.
+    intros [A B C D E F G H].
+    constructor; unfold str_at, cell_at in *; try (rewrite nth_error_app_old by (eapply lt_of; eassumption); assumption).
+    intros b' Hb' N1 N2 N3. rewrite nth_error_app_old by (pose proof (lt_of _ _ _ A); clear - Hb' H0; lia). apply H; assumption.
+  Qed.
+
+  Variable call : nat -> list val -> mem -> res (val * mem).
+  Local Notation LC v0 na v5 := [v0; VPtr bb 0; VPtr be 0; VPtr bn 0; VInt na; v5].
+
+  Lemma eval_rbyte mm i xr vb e v0 na v5 : RInv mm i xr vb e -> (i <= length s)%nat ->
+    eval call rbyte (mkst (LC v0 na v5) mm) = Ok (VInt (wrap I8 (Z.of_N (nthb s i))), mkst (LC v0 na v5) mm).
+  Proof.
+    intros R Hi. unfold rbyte. xs. rewrite (load1 mm bn _ (ri_loc _ _ _ _ _ R)). xs.
+    rewrite (load_str mm bs s _ i (ri_str _ _ _ _ _ R) eq_refl Hi). xs. reflexivity.
+  Qed.
+  Lemma eval_inc_loc mm i xr vb e v0 na v5 : RInv mm i xr vb e ->
+    eval call inc_loc (mkst (LC v0 na v5) mm)
+    = Ok (VPtr bs (Z.of_nat i), mkst (LC v0 na v5) (upd mm bn ([VPtr bs (Z.of_nat (S i))] : block))).
+  Proof.
+    intros R. unfold inc_loc. xs. rewrite (load1 mm bn _ (ri_loc _ _ _ _ _ R)). xs.
+    rewrite (store1 mm bn _ _ (ri_loc _ _ _ _ _ R)). xs. rewrite Nat2Z.inj_succ. reflexivity.
+  Qed.
+  Lemma eval_sep_cond mm i xr vb e v0 na v5 : RInv mm i xr vb e -> (i <= length s)%nat ->
+    eval call sep_cond (mkst (LC v0 na v5) mm) = Ok (VInt (b2z (sep_pre (nthb s i))), mkst (LC v0 na v5) mm).
+  Proof.
+    intros R Hi. pose proof (nthb_lt256 s i H256) as Hc. unfold sep_cond, sep_pre.
+    cbn [eval]. rewrite (eval_rbyte mm i xr vb e v0 na v5 R Hi). xs. rewrite (sx_eqb_0 _ Hc).
+    destruct (nthb s i =? 0)%N; xs; [reflexivity|].
+    rewrite (eval_rbyte mm i xr vb e v0 na v5 R Hi). xs. rewrite (sx_eqb_59 _ Hc).
+    destruct (nthb s i =? 59)%N; xs; [reflexivity|].
+    rewrite (eval_rbyte mm i xr vb e v0 na v5 R Hi). xs. rewrite (sx_eqb_44 _ Hc).
+    destruct (nthb s i =? 44)%N; reflexivity.
+  Qed.
+  (* while ( *loc && *loc != ';' && *loc != ',') loc++; *)
+  Lemma sep_loop_ok xr vb e v0 na v5 : forall fm i j fuel mm, RInv mm i xr vb e -> (i <= length s)%nat ->
+    CapDefs.skip_while fm sep_pre s i = CapDefs.Ok j -> (fm <= fuel)%nat ->
+    exists mm', exec call fuel sep_loop (mkst (LC v0 na v5) mm) = ONormal (mkst (LC v0 na v5) mm') /\
+                RInv mm' j xr vb e /\ (i <= j)%nat /\ (j <= length s)%nat.
+  Proof.
+    induction fm as [|fm IH]; intros i j fuel mm R Hi H Hf; [discriminate|].
+    destruct fuel as [|fuel]; [lia|]. cbn [CapDefs.skip_while] in H. rewrite (rd_ok s i Hi) in H. cbn [CapDefs.bind] in H.
+    unfold sep_loop. rewrite exec_while, (eval_sep_cond mm i xr vb e v0 na v5 R Hi). xcbn. rewrite nb2z.
+    destruct (sep_pre (nthb s i)) eqn:Ep.
+    - assert (i < length s)%nat by (apply nthb_nz_lt; intro E; rewrite E in Ep; discriminate).
+      rewrite exec_expr, (eval_inc_loc mm i xr vb e v0 na v5 R).
+      destruct (IH (S i) j fuel _ (RInv_loc mm i xr vb e (S i) R) ltac:(lia) H ltac:(lia)) as (mm' & E & R' & L1 & L2).
+      fold sep_loop. rewrite E. exists mm'. split; [reflexivity|]. split; [exact R'|]. split; lia.
+    - injection H as <-. exists mm. split; [reflexivity|]. split; [exact R|]. split; lia.
+  Qed.
+
+  Hypothesis Hc_lbuf : forall mm, nth_error mm G_bufs = Some gbufs -> call F_ex_lbuf [] mm = Ok (VPtr bl 0, mm).
+  Hypothesis Hc_len : forall mm, nth_error mm bl = Some lblk -> call F_lbuf_len [VPtr bl 0] mm = Ok (VInt len, mm).
+  Lemma eval_len mm i xr vb e L : RInv mm i xr vb e -> eval call lbuf_len_call (mkst L mm) = Ok (VInt len, mkst L mm).
+  Proof.
+    intro R. unfold lbuf_len_call. xs. rewrite (Hc_lbuf mm (ri_bufs _ _ _ _ _ R)). xs. rewrite (Hc_len mm (ri_lbuf _ _ _ _ _ R)). xs. reflexivity.
+  Qed.
+
+  (* the checks behind the loop: address 0 stands for "before the first line", beg and end must lie inside the buffer *)
+  Definition rfinal (b e : Z) : bool * Z :=
+    let b1 := if (b <? 0) && (e =? 0) then 0 else b in
+    (((b1 <? 0) || (len <=? b1)) || ((e <? b1) || (len <? e)), b1).
+  Lemma rtail_ok fuel mm i xr b e v0 na v5 : RInv mm i xr (VInt b) e -> int_ok b -> int_ok e ->
+    exists mm', exec call fuel rtail (mkst (LC v0 na v5) mm) = OReturn (VInt (b2z (fst (rfinal b e)))) (mkst (LC v0 na v5) mm') /\
+                RInv mm' i xr (VInt (snd (rfinal b e))) e /\ int_ok (snd (rfinal b e)).
+  Proof.
+    intros R Ib Ie. unfold rtail, rfinal. cbv zeta. cbn [fst snd].
+    set (b1 := if (b <? 0) && (e =? 0) then 0 else b).
+    assert (exists mm1, exec call fuel (SIf (EAndAlso (EBin OLt I32 (ELoad (Some I32) (ELocal 1)) (EConst 0)) (EBin OEq I32 (ELoad (Some I32) (ELocal 2)) (EConst 0))) (SExpr (EStore (Some I32) (ELocal 1) (EConst 0))) SSkip) (mkst (LC v0 na v5) mm)
+              = ONormal (mkst (LC v0 na v5) mm1) /\ RInv mm1 i xr (VInt b1) e /\ int_ok b1) as (mm1 & E1 & R1 & I1).
+    { xs. rewrite (load1 mm bb _ (ri_beg _ _ _ _ _ R)). xs. rewrite (int_ok_wrap _ Ib). unfold b1.
+      destruct (b <? 0); xs.
+      - rewrite (load1 mm be _ (ri_end _ _ _ _ _ R)). xs. rewrite (int_ok_wrap _ Ie). destruct (e =? 0); xs.
+        + rewrite (store1 mm bb _ _ (ri_beg _ _ _ _ _ R)). xs. eexists. split; [reflexivity|]. split; [exact (RInv_beg _ _ _ _ _ _ R)|unfold int_ok; lia].
+        + exists mm. split; [reflexivity|]. split; assumption.
+      - exists mm. split; [reflexivity|]. split; assumption. }
+    rewrite exec_seq, E1. xs. rewrite (load1 mm1 bb _ (ri_beg _ _ _ _ _ R1)). xs. rewrite (int_ok_wrap _ I1).
+    destruct (b1 <? 0) eqn:Eb; xs.
+    { exists mm1. split; [reflexivity|]. split; assumption. }
+    rewrite (load1 mm1 bb _ (ri_beg _ _ _ _ _ R1)). xs. rewrite (int_ok_wrap _ I1).
+    fold lbuf_len_call. rewrite (eval_len mm1 i xr _ e _ R1). xs.
+    destruct (len <=? b1) eqn:El; xs.
+    { exists mm1. split; [reflexivity|]. split; assumption. }
+    rewrite (load1 mm1 be _ (ri_end _ _ _ _ _ R1)). xs. rewrite (int_ok_wrap _ Ie).
+    rewrite (load1 mm1 bb _ (ri_beg _ _ _ _ _ R1)). xs. rewrite (int_ok_wrap _ I1).
+    destruct (e <? b1) eqn:Ee; xs.
+    { exists mm1. split; [reflexivity|]. split; assumption. }
+    rewrite (load1 mm1 be _ (ri_end _ _ _ _ _ R1)). xs. rewrite (int_ok_wrap _ Ie).
+    fold lbuf_len_call. rewrite (eval_len mm1 i xr _ e _ R1). xs.
+    destruct (len <? e) eqn:El2; xs.
+    { exists mm1. split; [reflexivity|]. split; assumption. }
+    exists mm1. split; [reflexivity|]. split; assumption.
+  Qed.
+End Region.
